@@ -4,6 +4,7 @@ from fractions import Fraction as F
 import simlib, simstream, core, mplib
 from core import fr, unfr
 TRUSTED = ["exact regime; BEBS policies are outside the property and not modelled; BIG_FLOAT (1e100) modelled as no capacity"]
+ECH_THEOREM = 'Props/C04Ech.lean echelon_equals_local_from_start (serial model Model/SerialEchelon.lean)'
 THEOREM = 'Props/C04.list'
 
 
@@ -126,7 +127,35 @@ def ebs_equiv(rep, drv, n, th):
 		rep.count('ebs:N=%d' % N)
 		if d:
 			rep.diff('ebs-vs-local', 'echelon and converted local base-stock trajectories differ: ' + simlib.fmt_diffs(d), sa,
-					 py={'diffs': [list(map(str, x)) for x in d[:8]]}, oracle=True, theorem='echelon_local_equiv (not yet a theorem: checked Python-vs-Python)')
+					 py={'diffs': [list(map(str, x)) for x in d[:8]]}, oracle=True, theorem=ECH_THEOREM)
+		# the serial model the theorem echelon_equals_local is about (Model/SerialEchelon.lean), against the real simulator under BOTH policies
+		pos_, _, _, _ = simlib.layout(sa)
+		T_ = T
+		dlist = [dem[t % len(dem)] for t in range(T_)]
+		mdiffs = []
+		for mode, py_ in (('echelon', pa), ('local', pb)):
+			mo = drv.call('serial_ech', stages=[[fr(local[j]), rng_slt[j]] for j in range(N)], demands=dlist, mode=mode)
+			if not mo['hypOK']:
+				rep.count('ebs:theorem-hypothesis-FALSE')
+				rep.diff('ebs-vs-local', 'hypotheses of echelon_equals_local_from_start (non-negative levels and demands) are false on this generated instance', sa, oracle=False, theorem=ECH_THEOREM)
+			else:
+				rep.count('ebs:theorem-hypotheses-true')
+			if not mo['sameAsOther']:
+				mdiffs.append('the serial model itself gives different trajectories under the two policies (contradicts echelon_equals_local)')
+			if [unfr(x) for x in mo['echelonLevels']] != ech:
+				mdiffs.append('model echelon levels %s, converted levels %s' % (mo['echelonLevels'], [fr(x) for x in ech]))
+			for t in range(T_):
+				for j, l in enumerate(chain):
+					i = labels.index(l)          # position of the node in network.nodes order = position in the trace
+					nd = py_['trace'][t]['nodes'][i]
+					rep.exact_cmp += 2
+					if nd['il'] != unfr(mo['il'][t][j]) or nd['oqfg'] != unfr(mo['orders'][t][j]):
+						mdiffs.append('%s policy t=%d stage %d (node %s): python IL %s order %s, serial model IL %s order %s' % (
+							mode, t, j, l, nd['il'], nd['oqfg'], mo['il'][t][j], mo['orders'][t][j]))
+				if len(mdiffs) > 5:
+					break
+		if mdiffs:
+			rep.diff('ebs-vs-local', 'serial echelon model/implementation differ: ' + '; '.join(mdiffs[:3]), sa, py={'diffs': mdiffs[:10]}, oracle=False, theorem=None)
 		# also the level conversion functions of the library
 		try:
 			from stockpyl.supply_chain_network import echelon_to_local_base_stock_levels, local_to_echelon_base_stock_levels
